@@ -91,3 +91,20 @@
                           (gmul (ringFold c0 sv pv se so le lo pre lk hb tg (- n 1)) tg))
                     gzero))))
      :pattern ((ringFold c0 sv pv se so le lo pre lk hb tg n)))))
+; ---- BDN signature aggregation ----
+; the group element a byte slice (a header into the byte heap) decodes to
+(define-fun sigOf ((bh (Array Int (Array Int (_ BitVec 8)))) (sl Slice)) G
+  (decodeG (bytesval8 (select bh (s-arr sl)) (s-off sl) (s-len sl))))
+; bdnSigAgg(...)(n): sum over the enabled indices i < n of c_i*sig + sig, where sig is the
+; maskCount(i)-th signature of the list (signatures are consumed in the order of the enabled bits)
+(declare-fun bdnSigAgg (G (Array Int S) (Array Int Int) Int (Array Int (_ BitVec 8)) Int (Array Int Slice) Int (Array Int (Array Int (_ BitVec 8))) Int) G)
+(assert (forall ((a G) (sv (Array Int S)) (ce (Array Int Int)) (co Int) (m (Array Int (_ BitVec 8))) (mo Int) (se (Array Int Slice)) (so Int) (bh (Array Int (Array Int (_ BitVec 8)))) (n Int))
+  (! (=> (<= n 0) (= (bdnSigAgg a sv ce co m mo se so bh n) a)) :pattern ((bdnSigAgg a sv ce co m mo se so bh n)))))
+(assert (forall ((a G) (sv (Array Int S)) (ce (Array Int Int)) (co Int) (m (Array Int (_ BitVec 8))) (mo Int) (se (Array Int Slice)) (so Int) (bh (Array Int (Array Int (_ BitVec 8)))) (n Int))
+  (! (=> (> n 0) (= (bdnSigAgg a sv ce co m mo se so bh n)
+       (ite (maskBit m mo (- n 1))
+            (gadd (bdnSigAgg a sv ce co m mo se so bh (- n 1))
+                  (gadd (gmul (select sv (select ce (+ co (- n 1)))) (sigOf bh (select se (+ so (maskCount m mo (- n 1))))))
+                        (sigOf bh (select se (+ so (maskCount m mo (- n 1)))))))
+            (bdnSigAgg a sv ce co m mo se so bh (- n 1)))))
+     :pattern ((bdnSigAgg a sv ce co m mo se so bh n)))))
